@@ -31,14 +31,14 @@ ASSUMPTIONS = ["decoding itself is judged by C01, not here",
 EXHAUSTIVE = {"quick": False, "thorough": False}
 
 
-def expected_rows(defn, files, raw):
+def expected_rows(defn, files, raw, **kw):
     rows = {}
     order = []
     for f in files:
         with open(f, "rb") as fh:
             with warnings.catch_warnings():
                 warnings.simplefilter("ignore")
-                pkts = list(defn.packet_generator(fh))
+                pkts = list(defn.packet_generator(fh, **kw))
         for p in pkts:
             apid = p.raw_data.apid
             if apid not in rows:
@@ -88,7 +88,7 @@ NAME_POOL = ["b.bin", "a.bin", "10.pkts", "9.pkts", "Z.bin", "z.bin", "sub/a.bin
              "B/1.bin", "A/2.bin"]
 
 
-def write_files(packets, assignment, nfiles, workdir, names=None, given=None):
+def write_files(packets, assignment, nfiles, workdir, names=None, given=None, skip=0):
     """file i holds the packets assigned to it; the list handed to create_dataset is files[g] for g in `given`
     (any order, repeats allowed) – the order given need not be the order of the names"""
     files = []
@@ -98,7 +98,7 @@ def write_files(packets, assignment, nfiles, workdir, names=None, given=None):
         with open(path, "wb") as f:
             for p, a in zip(packets, assignment):
                 if a % nfiles == i:
-                    f.write(p)
+                    f.write(bytes([0xA5, 0x08, 0x00] * skip)[:skip] + p)   # `skip` record-header bytes before each packet
         files.append(path)
     return [files[g] for g in given] if given else files
 
@@ -110,7 +110,11 @@ def check_case(ctx, case):
     ctx.count()
     workdir = tempfile.mkdtemp(prefix="vf_c18_")
     try:
-        files = write_files(packets, case["files"], case["nfiles"], workdir, case.get("names"), case.get("given"))
+        skip = case.get("skip", 0)
+        gkw = {"skip_header_bytes": skip} if skip else {}
+        files = write_files(packets, case["files"], case["nfiles"], workdir, case.get("names"), case.get("given"), skip)
+        if skip:
+            ctx.cls("generator keyword passed through (skip_header_bytes)")
         if files != sorted(files):
             ctx.cls("files given in an order other than by name")
         if len(set(files)) < len(files):
@@ -122,7 +126,7 @@ def check_case(ctx, case):
         modes = [False, True] if case.get("only_mode") is None else [case["only_mode"]]
         for raw in modes:
             try:
-                rows, order = expected_rows(defn, files, raw)
+                rows, order = expected_rows(defn, files, raw, **gkw)
             except Exception as e:
                 ctx.cls("library parse raised (skipped, C01's subject)")
                 return None
@@ -149,7 +153,16 @@ def check_case(ctx, case):
                     arg = {"list": list(files), "tuple": tuple(files), "generator": (f for f in files),
                            "paths": [__import__("pathlib").Path(f) for f in files],
                            "single": files[0] if len(files) == 1 else list(files)}[how]
-                    ds = xarr.create_dataset(arg, defn, use_raw_values=raw)
+                    darg = defn
+                    if case.get("defn_as") in ("path", "str") and case["route"] == "xml" and doc["root"] == "CCSDSPacket" \
+                            and (case.get("opts") or {}).get("ns") == "prefix" and case["opts"].get("prefix") == "xtce":
+                        # the definition handed over as a file name (loaded with from_xtce's defaults)
+                        xp = os.path.join(workdir, "definition.xml")
+                        with open(xp, "wb") as xf:
+                            xf.write(xdoc.render(doc, case["opts"]))
+                        darg = xp if case["defn_as"] == "str" else __import__("pathlib").Path(xp)
+                        ctx.cls("definition given as a file name")
+                    ds = xarr.create_dataset(arg, darg, use_raw_values=raw, **gkw)
             except ValueError as e:
                 if poly:
                     ctx.cls("polymorphic -> ValueError")
@@ -270,6 +283,7 @@ def gen_case(draw, poly=False):
     given = draw(st.one_of(st.just(list(range(nfiles))), st.permutations(list(range(nfiles))),
                            st.lists(st.integers(0, nfiles - 1), min_size=1, max_size=nfiles + 1)))
     return {"doc": doc, "packets": packets, "nfiles": nfiles, "files": files, "names": names, "given": list(given),
+            "skip": draw(st.sampled_from([0, 0, 0, 3, 16])), "defn_as": draw(st.sampled_from(["object", "path", "str"])),
             "files_as": draw(st.sampled_from(["list", "list", "tuple", "generator", "paths", "single"])),
             "route": draw(st.sampled_from(["xml", "xml", "built"])), "opts": draw(c01.gen_opts())}
 
